@@ -22,6 +22,9 @@ pub enum LayerSpec {
     Conv { count: usize, depth: usize, fr: usize, fc: usize, sr: usize, sc: usize, act: Act },
     /// user-defined layer without parameters: [batch..., d, r, c] -> [batch, d*r*c] (or [d*r*c] unbatched)
     Flatten,
+    /// user-defined activation written with `Array::op` on TWO operands, the input and an untracked constant
+    /// (a one-element array holding 0.5): x -> x * 0.5, with the derivative supplied by the layer
+    Gate,
 }
 
 pub fn make_act(a: Act) -> Option<Activation> {
@@ -41,6 +44,23 @@ pub fn stream_initializer(vals: Vec<f64>) -> Initializer {
         i.set(k + 1);
         vals[k % vals.len()] as Float
     })
+}
+
+pub struct Gate;
+impl Layer for Gate {
+    fn forward(&self, input: Array) -> Array {
+        use corgi::array::{BackwardOp, ForwardOp};
+        let k = Array::from(vec![0.5 as Float]);
+        let fw: ForwardOp = Rc::new(|a: &[&Array]| Array::from((a[0].dimensions().to_vec(), a[0].values().iter().map(|v| v * a[1].values()[0]).collect::<Vec<Float>>())));
+        let bw: BackwardOp = Rc::new(|c: &[Array], t: &[bool], d: &Array| {
+            let s = c[1].values()[0];
+            vec![if t[0] { Some(Array::from((d.dimensions().to_vec(), d.values().iter().map(|v| v * s).collect::<Vec<Float>>()))) } else { None }, None]
+        });
+        Array::op(&[&input, &k], fw, Some(bw))
+    }
+    fn parameters(&mut self) -> Vec<&mut Array> {
+        vec![]
+    }
 }
 
 pub struct Flatten;
@@ -86,7 +106,7 @@ pub fn n_params(s: &LayerSpec) -> usize {
     match s {
         LayerSpec::Dense { input, output, .. } => input * output + output,
         LayerSpec::Conv { count, depth, fr, fc, .. } => count * depth * fr * fc + count,
-        LayerSpec::Flatten => 0,
+        LayerSpec::Flatten | LayerSpec::Gate => 0,
     }
 }
 
@@ -104,6 +124,7 @@ pub fn build_layers_scaled<'a>(specs: &[LayerSpec], acts: &'a [Option<Activation
             LayerSpec::Dense { input, output, .. } => Box::new(Dense::new(*input, *output, &init, acts[i].as_ref())),
             LayerSpec::Conv { count, depth, fr, fc, sr, sc, act } => Box::new(Conv::new((*count, *depth, *fr, *fc), (*sr, *sc), &init, make_act(*act))),
             LayerSpec::Flatten => Box::new(Flatten),
+            LayerSpec::Gate => Box::new(Gate),
         };
         out.push(match log {
             Some(lg) => Box::new(Spy { inner: l, index: i, log: Rc::clone(lg) }),
@@ -123,6 +144,7 @@ pub fn build_layers_const<'a>(specs: &[LayerSpec], acts: &'a [Option<Activation>
             LayerSpec::Dense { input, output, .. } => Box::new(Dense::new(*input, *output, &init, acts[i].as_ref())),
             LayerSpec::Conv { count, depth, fr, fc, sr, sc, act } => Box::new(Conv::new((*count, *depth, *fr, *fc), (*sr, *sc), &init, make_act(*act))),
             LayerSpec::Flatten => Box::new(Flatten),
+            LayerSpec::Gate => Box::new(Gate),
         };
         out.push(match log {
             Some(lg) => Box::new(Spy { inner: l, index: i, log: Rc::clone(lg) }),
@@ -147,6 +169,7 @@ pub fn ref_layer(s: &LayerSpec, params: &[T], x: &T) -> Result<T, RefErr> {
     match s {
         LayerSpec::Dense { act, .. } => ops::dense(x, &params[0], &params[1], *act),
         LayerSpec::Conv { sr, sc, act, .. } => ops::conv_layer(x, &params[0], &params[1], *sr, *sc, *act),
+        LayerSpec::Gate => Ok(ops::scale(x, 0.5)),
         LayerSpec::Flatten => {
             let d = &x.dims;
             let n = d.len();
@@ -165,7 +188,7 @@ pub fn input_dims(specs: &[LayerSpec], batch: usize, rows: usize, cols: usize) -
     let mut d = match &specs[0] {
         LayerSpec::Dense { input, .. } => vec![*input],
         LayerSpec::Conv { depth, .. } => vec![*depth, rows, cols],
-        LayerSpec::Flatten => vec![1, rows, cols],
+        LayerSpec::Flatten | LayerSpec::Gate => vec![1, rows, cols],
     };
     if batch > 0 {
         d.insert(0, batch);
